@@ -36,8 +36,33 @@ def strat_map(with_rot=False):
             n = draw(st.integers(1, 6))
             ridges = []
             y = draw(st.integers(10, 20))
+            if draw(st.integers(0, 7)) == 0:
+                # 'banner' pages: a paragraph of tall level lines 16-24 px apart in which one inner line is wider than its
+                # neighbours, has small heights and is fenced by separator responses, so that the paragraph's region
+                # surrounds the banner's region on both sides
+                W = max(W, 120)
+                k = draw(st.integers(3, 5))
+                inner = draw(st.integers(1, k - 2))
+                xa = draw(st.integers(24, 40))
+                xb = W - draw(st.integers(24, 40))
+                fences = []
+                for i in range(k):
+                    if i == inner:
+                        ridges.append(dict(x0=draw(st.integers(6, xa - 12)), x1=W - draw(st.integers(6, W - xb - 12)), y=float(y), slope=0.0,
+                                           asc=float(draw(st.integers(2, 4))), desc=float(draw(st.integers(1, 2))), amp=1.0, ends=draw(st.booleans())))
+                        fences.append(draw(st.sampled_from(["both", "both", "above", "below"])))
+                    else:
+                        ridges.append(dict(x0=xa + draw(st.integers(0, 6)), x1=xb - draw(st.integers(0, 6)), y=float(y), slope=0.0,
+                                           asc=float(draw(st.integers(8, 12))), desc=float(draw(st.integers(4, 6))), amp=1.0, ends=draw(st.booleans())))
+                        fences.append(None)
+                    y += draw(st.integers(16, 24))
+                c = dict(H=max(H, y + 12), W=W, ds=ds, ridges=ridges, sep_val=draw(st.sampled_from([1.0, 0.6])), fences=fences, banner=True)
+                if with_rot:
+                    c["rot"] = draw(st.sampled_from([0, 1, 2, 3]))
+                    c["trim"] = (draw(st.integers(0, 7)), draw(st.integers(0, 7)))
+                return c
             # 'parallel' pages: all ridges share one slope, so they stay >= 15 px apart although their bounding boxes overlap
-            common = draw(st.sampled_from([None, None, 0.04, -0.06, 0.08, -0.1]))
+            common = draw(st.sampled_from([None, None, 0.04, -0.06, 0.08, -0.1, 0.0]))      # 0.0: a paragraph of level lines 16-30 px apart
             # two-column pages: every band holds a line in the left and one in the right column on exactly the same row
             two_col = common is None and W >= 120 and draw(st.integers(0, 4)) == 0
             if common is not None:
@@ -64,7 +89,7 @@ def strat_map(with_rot=False):
                     l1 = draw(st.integers(12, half - 22))
                     xa = draw(st.integers(6, half - 14 - l1))
                     l2 = draw(st.integers(12, half - 22))
-                    xb = half + 8 + draw(st.integers(0, half - 16 - l2 - 8))
+                    xb = half + 8 + draw(st.integers(0, max(0, half - 16 - l2 - 8)))
                     for xx, ll in ((xa, l1), (xb, l2)):
                         ridges.append(dict(x0=xx, x1=xx + ll, y=float(y), slope=0.0, asc=float(draw(st.integers(2, 12))),
                                            desc=float(draw(st.integers(1, 6))), amp=1.0, ends=draw(st.booleans())))
@@ -87,6 +112,11 @@ def strat_map(with_rot=False):
                                            desc=float(draw(st.integers(1, 6))), amp=1.0, ends=draw(st.booleans()) and l2 >= 12))
                 y += draw(st.integers(22, 40))
             c = dict(H=H, W=W, ds=ds, ridges=ridges)
+            # region-separator responses (channel 4): a line may be 'fenced' - separator strokes along its ascender and/or
+            # descender line over the whole page width -, which cuts it out of the paragraph formed by its neighbours
+            if draw(st.integers(0, 2)) == 0:
+                c["sep_val"] = draw(st.sampled_from([1.0, 0.6]))
+                c["fences"] = [draw(st.sampled_from([None, None, "both", "both", "above", "below"])) for _ in ridges]
             if with_rot:
                 c["rot"] = draw(st.sampled_from([0, 1, 2, 3]))
                 c["trim"] = (draw(st.integers(0, 7)), draw(st.integers(0, 7)))      # page sides need not be multiples of ds
@@ -113,6 +143,15 @@ def paint(case):
                     for x in range(xe - 1, xe + 2):
                         if 0 <= y < H and 0 <= x < W:
                             m[y, x, 3] = 0.9
+    for r, fence in zip(case["ridges"], case.get("fences") or []):
+        if fence is None:
+            continue
+        for x in range(W):
+            yc = r["y"] + r["slope"] * (x - r["x0"])
+            for row in ([yc - r["asc"]] if fence in ("both", "above") else []) + ([yc + r["desc"]] if fence in ("both", "below") else []):
+                row = int(round(row))
+                if 0 <= row < H:
+                    m[row, x, 4] = case["sep_val"]
     return m
 
 
@@ -271,12 +310,34 @@ def body_detect(ctx, case):
             for g in got_list:
                 g = np.asarray(g, dtype=np.float64)
                 cands = [mm for mm in mapped if mm.shape == g.shape]
-                err = min([float(np.abs(mm - g).max()) for mm in cands] + [float("inf")])
+                if name == "region":
+                    # a region outline is a closed ring: the vertex it starts at (and its direction) follows the order in
+                    # which the lines were met, which the library settles with the global RNG on ties - compare as rings
+                    err = min([_ring_err(mm, g) for mm in cands] + [float("inf")])
+                else:
+                    err = min([float(np.abs(mm - g).max()) for mm in cands] + [float("inf")])
                 ctx.check(err <= 1.0 + 1e-3, "rotated_coordinates_off_by_more_than_one_pixel",
                           lambda: "%s %r: nearest upright result mapped back differs by %.2f px; page %dx%d ds %d rot %d; " % (name, g.tolist()[:3], err, Wo, Ho, ds, rot) + desc())
         ctx.event("rotation_metamorphic_checked")
+    if case.get("fences") and any(case["fences"]):
+        ctx.event("with_region_separator_responses")
+        if len(p_list) >= 2:
+            ctx.event("separators_split_the_page_into_several_regions")
     if Ho != Wo and rot != 0 and len(case["ridges"]) >= 1:
         ctx.nontrivial(repr(case))
+
+
+def _ring_err(a, b):
+    """largest coordinate difference between two closed rings of equal vertex count, minimised over start vertex and direction."""
+    a = np.asarray(a, dtype=np.float64)
+    b = np.asarray(b, dtype=np.float64)
+    if len(a) > 1 and np.allclose(a[0], a[-1]) and np.allclose(b[0], b[-1]):
+        a, b = a[:-1], b[:-1]
+    best = float("inf")
+    for bb in (b, b[::-1]):
+        for k in range(len(bb)):
+            best = min(best, float(np.abs(a - np.roll(bb, k, axis=0)).max()))
+    return best
 
 
 def strat_many():
